@@ -125,6 +125,13 @@ func (e *Engine) invokeValue(st *State, g *G, fr *Frame, callee Value, args []Va
 				return e.finishCall(st, g, fr, in, args[len(args)-1])
 			case "noop":
 				return e.finishCall(st, g, fr, in, nil)
+			case "symhash-err":
+				// (hash, error) function replaced by an injective symbolic hash of its arguments
+				parts := make([]Value, len(args))
+				for i, a := range args {
+					parts[i] = e.snapshot(st, a, 8)
+				}
+				return e.finishCall(st, g, fr, in, TupleV{SymStr{kind: "hash:" + f.String(), parts: parts}, nilErr()})
 			case "opaque-string":
 				// formatting of (possibly symbolic) values for messages: the text is never inspected
 				parts := make([]Value, len(args))
